@@ -600,6 +600,31 @@ def scratch_discipline(body, field):
             sf = strip_field(n["e"])
             if sf is not None and sf["f"] == field:
                 problems.append("%s indexed directly at %s" % (field, n.get("sp")))
+    # the scratch vector is grown to the number of messages whenever it is shorter: `if S.len() < X.len() { S.resize(X.len(), ..) }`
+    # (or an unconditional resize); a guard that lets a too-short vector through makes the zipped loops stop early
+    def is_len_of(n_, want_field):
+        n_ = strip(n_)
+        if n_.get("k") != "mcall" or n_["m"] != "len":
+            return False
+        sf_ = strip_field(n_["recv"])
+        return (sf_ is not None and sf_["f"] == field) if want_field else (sf_ is None or sf_["f"] != field)
+    for n in walk(body.value):
+        if n.get("k") == "if":
+            rs = [x for x in walk(n["t"]) if x.get("k") == "mcall" and x["m"] == "resize" and strip_field(x["recv"]) is not None and strip_field(x["recv"])["f"] == field]
+            if not rs:
+                continue
+            c_ = strip(n["c"])
+            ok_guard = False
+            if c_.get("k") == "bin" and c_.get("op") in ("Lt", "Le"):
+                ok_guard = is_len_of(c_["l"], True) and is_len_of(c_["r"], False)
+            elif c_.get("k") == "bin" and c_.get("op") in ("Gt", "Ge"):
+                ok_guard = is_len_of(c_["r"], True) and is_len_of(c_["l"], False)
+            elif c_.get("k") == "bin" and c_.get("op") == "Ne":
+                ok_guard = (is_len_of(c_["l"], True) and is_len_of(c_["r"], False)) or (is_len_of(c_["r"], True) and is_len_of(c_["l"], False))
+            if not ok_guard:
+                problems.append("%s is resized only under a condition that is not `%s.len() < messages.len()` (at %s)" % (field, field, n.get("sp")))
+            if not all(is_len_of(x["args"][0], False) for x in rs if x.get("args")):
+                problems.append("%s is not resized to the number of messages" % field)
     if problems:
         return False, "; ".join(problems[:3])
     return bool(order), "%s: %d whole-prefix write loop(s) precede %d zip-read loop(s) over the same message slice; only len()/resize() otherwise" % (
